@@ -115,3 +115,57 @@ def rename_guard(ck, F):
               "(renaming any sheet rewrites every such reference)" % variant, f, l,
               sample={"variant": variant, "guarded": ok})
     ck.ob(R, "rename_sheet_in_node|rename-sites", n >= 2, "found %d rename stores, expected at least ReferenceKind and RangeKind" % n, b.file, b.line)
+
+
+def names_rules(ck, F):
+    """C32: renaming / re-parsing of defined names."""
+    from effects import Program
+    from rules_attr import sources
+    R = "NAMES"
+    P = Program(F)
+    # every Node variant that carries a name resolved against the defined names is handled by the rename walker
+    b = ck.need(F.one, "stringify::rename_defined_name_in_node")
+    used = {}
+    for _bi, si, p, role in all_places(b):
+        for e in place_proj(p):
+            if e[0] == "f" and e[3] == NODE and e[4] is not None:
+                used.setdefault(e[4], set()).add(e[2])
+    ck.ob(R, "rename_defined_name_in_node|DefinedNameKind", "DefinedNameKind" in used,
+          "the rename walker never touches Node::DefinedNameKind", b.file, b.line, sample={"variant": "DefinedNameKind", "fields": sorted(map(str, used.get("DefinedNameKind", [])))})
+    ck.ob(R, "rename_defined_name_in_node|NamedFunctionKind.name", "name" in used.get("NamedFunctionKind", set()),
+          "the rename walker ignores the name of Node::NamedFunctionKind: a LAMBDA-valued defined name that is *called* (=MyName(1)) keeps its old "
+          "name in every formula after the name is renamed and evaluates to #NAME?", b.file, b.line,
+          sample={"variant": "NamedFunctionKind", "fields_read": sorted(used.get("NamedFunctionKind", set()))})
+    # update_defined_name rewrites the formulas of every worksheet and re-parses afterwards
+    u = ck.need(F.one, "model::Model::update_defined_name")
+    stores = []
+    for bi, si, s in u.stmts():
+        if place_proj(s["p"]) and s["rv"]["k"] == "use":
+            p = u.resolve_place(s["p"], through_named=True)
+            fs = [e for e in place_proj(p) if e[0] == "f"]
+            if fs and fs[-1][2] == "shared_formulas":
+                stores.append((bi, si, p))
+    ck.ob(R, "update_defined_name|rewrites-shared_formulas", len(stores) == 1, "expected one store into shared_formulas, found %d" % len(stores), u.file, u.line)
+    for bi, si, p in stores:
+        # the worksheet being stored into comes from an iteration over workbook.worksheets
+        sr = sources(u, {"c": {"l": p["l"]}})
+        ok = any(x[0] == "field" and x[2] == "worksheets" for x in sr)
+        ck.ob(R, "update_defined_name|every-worksheet", ok,
+              "update_defined_name rewrites the formulas of one worksheet (%s), not of every worksheet: uses of the name on other sheets keep the old name" % sorted(map(str, sr)),
+              *u.loc(bi, si), sample={"iterates": sorted(map(str, sr))})
+    rs = set(F.find("model::Model::reset_parsed_structures"))
+    for fn in ("update_defined_name", "new_defined_name", "delete_defined_name"):
+        bb = ck.need(F.one, "model::Model::" + fn)
+        calls = bb.calls_to("Model::reset_parsed_structures")
+        oks = [bi for bi, si, s in bb.stmts() if s["p"]["l"] == 0 and s["rv"]["k"] == "agg" and s["rv"].get("variant") == "Ok"]
+        # every Ok return that follows a write of defined_names passes reset_parsed_structures
+        from effects import block_effects
+        writes = [bi for bi, es in block_effects(bb.rec, F.adts).items()
+                  if any(e[0] == "ironcalc_base::types::DefinedName" or e == ("ironcalc_base::types::Workbook", "defined_names") for e, _ in es)]
+        ok = bool(calls) and bool(writes) and all(any(c in bb.reachable_from(w) for c, _ in calls) for w in writes)
+        ck.ob(R, "%s|reparses-after-change" % fn, ok, "%s changes workbook.defined_names without reaching reset_parsed_structures" % fn, bb.file, bb.line,
+              sample={"fn": fn, "writes": len(writes), "resets": len(calls)})
+    # xlsx import re-parses names with an English parser and stores the English printer's output
+    h = ck.need(F.one, "ironcalc::import::reparse_formula_hack")
+    ok = bool(h.calls_to("new_parser_english")) and bool(h.calls_to("stringify::to_english_string")) and not h.calls_to("stringify::to_localized_string")
+    ck.ob(R, "xlsx-import|names-in-English", ok, "xlsx import does not re-parse defined names with the English parser / printer", h.file, h.line)
